@@ -41,7 +41,33 @@ func (p *prover) add(f Lin) {
 // Entails reports whether the facts entail g >= 0.
 func (p *prover) Entails(g Lin) bool {
 	p.steps = 0
+	// all atoms are integers: divide the goal by the gcd of its coefficients, rounding the constant down
+	// (3*x + 2 >= 0  <=>  x + 0 >= 0)
+	if len(g.t) > 0 {
+		d := int64(0)
+		for _, t := range g.t {
+			d = gcd(d, t.k)
+		}
+		if d < 0 {
+			d = -d
+		}
+		if d > 1 {
+			n := Lin{C: floorDiv(g.C, d)}
+			for _, t := range g.t {
+				n.t = append(n.t, term{a: t.a, k: t.k / d})
+			}
+			g = n
+		}
+	}
 	return p.prove(g, maxDepth, nil)
+}
+
+func floorDiv(a, b int64) int64 {
+	q := a / b
+	if (a%b != 0) && ((a < 0) != (b < 0)) {
+		q--
+	}
+	return q
 }
 
 func pivots(g Lin) (ts []term, must bool) {
@@ -54,9 +80,14 @@ func pivots(g Lin) (ts []term, must bool) {
 	return g.t, false
 }
 
-func (p *prover) prove(g Lin, depth int, used []int) bool {
+func (p *prover) prove(g Lin, depth int, used []int) bool { return p.proveM(g, depth, used, 1) }
+
+// proveM: g is m times the original goal minus non-negative multiples of facts. All atoms are integers, so the
+// original goal G satisfies m*G >= g's constant once every remaining term is non-negative; G >= ceil(C/m), which is
+// >= 0 as soon as C > -m (integer rounding: 3*i <= 14 gives i <= 4).
+func (p *prover) proveM(g Lin, depth int, used []int, m int64) bool {
 	pv, bad := pivots(g)
-	if !bad && g.C >= 0 {
+	if !bad && (g.C >= 0 || g.C > -m) {
 		return true
 	}
 	if depth == 0 {
@@ -98,7 +129,11 @@ func (p *prover) prove(g Lin, depth int, used []int) bool {
 			if len(ng.t) > 12 {
 				continue
 			}
-			if p.prove(ng, depth-1, append(used, fi)) {
+			nm := m * mu
+			if nm > 1<<40 || nm <= 0 {
+				continue
+			}
+			if p.proveM(ng, depth-1, append(used, fi), nm) {
 				return true
 			}
 		}
